@@ -387,6 +387,7 @@ impl SubCheck for RealThreads {
                     (3, _) => Stop::PanicAt(idx(raw, n as usize) as u32),
                     _ => Stop::Exhaust,
                 };
+                let n = if strat == Strat::Dfs { n.min(20000) } else { n };
                 StressCase { seed, n, deg, strat, threads, stop, block }
             })
             .boxed()
